@@ -226,6 +226,132 @@ def gen_flat(rng):
                 nbad=sum(1 for g, _ in items if g == 'bad'))
 
 
+def merges(seqs):
+    """all interleavings of the given sequences (each keeps its own order)"""
+    seqs = [q for q in seqs if q]
+    if not seqs:
+        yield []
+        return
+    for j, q in enumerate(seqs):
+        rest = seqs[:j] + [q[1:]] + seqs[j + 1:]
+        for m in merges(rest):
+            yield [q[0]] + m
+
+
+def handle_events(spec, order, len_first):
+    """the state-changing operations of one handle, in its own order, and what it must show"""
+    if spec['kind'] == 'map':
+        n, k = spec['n'], spec['k']
+        l = list(range(spec['base'], spec['base'] + n))
+        evs = [['set', i, [fval(x) for x in l[i * k:(i + 1) * k]]] for i in order]
+        return evs, [fval(x) for x in l]
+    items = spec['items']
+    evs = [['set', i, items[i]] for i in order]
+    evs.insert(0 if len_first else len(evs), ['len', len(items)])
+    seq = items if not spec['unordered'] else [items[i] for i in order]
+    return evs, [['yield', v] if g == 'good' else ['raise', v] for g, v in seq]
+
+
+def mk_multi(specs, seqs_expect, merged, probe):
+    """merged: list of (handle, op); after every event every iterator is asked once (probe), and at
+    the end every handle is drained / read"""
+    ops = []
+    for h, op in merged:
+        ops.append([h] + op)
+        if probe:
+            for j, sp in enumerate(specs):
+                ops.append([j, 'next'] if sp['kind'] != 'map' else [j, 'get'])
+    for j, sp in enumerate(specs):
+        if sp['kind'] == 'map':
+            ops.append([j, 'get'])
+        else:
+            ops += [[j, 'next']] * (len(sp['items']) + 2)
+    handles = []
+    for sp, (_, exp) in zip(specs, seqs_expect):
+        h = dict(sp)
+        h['expect'] = exp
+        handles.append(h)
+    return dict(t='multi', handles=handles, ops=ops)
+
+
+def imap_spec(tag, n, unordered=False, bad=None):
+    items = [['good', 1000 * tag + 10 * i + 1] for i in range(n)]
+    if bad is not None and bad < n:
+        items[bad] = ['bad', 1000 * tag + 900 + bad]
+    return dict(kind='imap', unordered=unordered, items=items)
+
+
+def multi_enumerated(rng, tier):
+    """TWO handles alive at once, 2 items each: every arrival order of each handle x set_length first or
+    last x every interleaving of the two event sequences (ordered/ordered and ordered/unordered);
+    THREE handles (ordered, ordered, MapResult): every arrival order x a seeded sample of the
+    interleavings in the quick tier, all of them in the thorough tier.  Values of different handles
+    are disjoint, so an item surfacing at the wrong handle is visible."""
+    import itertools
+    out = []
+    for second_unordered in (False, True):
+        specs = [imap_spec(1, 2, bad=1), imap_spec(2, 2, unordered=second_unordered)]
+        for o0 in itertools.permutations(range(2)):
+            for o1 in itertools.permutations(range(2)):
+                for lf0 in (False, True):
+                    for lf1 in (False, True):
+                        se = [handle_events(specs[0], o0, lf0), handle_events(specs[1], o1, lf1)]
+                        seqs = [[(h, e) for e in evs] for h, (evs, _) in enumerate(se)]
+                        for m in merges(seqs):
+                            out.append(mk_multi(specs, se, m, probe=True))
+    specs = [imap_spec(1, 2), imap_spec(2, 2, bad=0), dict(kind='map', n=3, k=2, base=40, cb=True, ecb=True)]
+    three = []
+    for o0 in itertools.permutations(range(2)):
+        for o1 in itertools.permutations(range(2)):
+            for o2 in itertools.permutations(range(2)):
+                se = [handle_events(specs[0], o0, False), handle_events(specs[1], o1, False),
+                      handle_events(specs[2], o2, False)]
+                seqs = [[(h, e) for e in evs] for h, (evs, _) in enumerate(se)]
+                for m in merges(seqs):
+                    three.append(mk_multi(specs, se, m, probe=False))
+    if tier == 'quick':
+        three = rng.sample(three, 150)
+    return out + three
+
+
+def gen_multi(rng):
+    """random: 2-3 handles of random kinds and sizes, random arrival orders and interleaving"""
+    specs = []
+    for tag in range(1, rng.choice([2, 2, 3]) + 1):
+        r = rng.random()
+        if r < 0.55:
+            specs.append(imap_spec(tag, rng.randint(0, 5), bad=rng.choice([None, None, 0, 1, 2])))
+        elif r < 0.8:
+            specs.append(imap_spec(tag, rng.randint(0, 5), unordered=True, bad=rng.choice([None, 1])))
+        else:
+            n = rng.randint(1, 7)
+            k = rng.randint(1, n + 1)
+            specs.append(dict(kind='map', n=n, k=k, base=100 * tag, cb=True, ecb=True))
+    se = []
+    for sp in specs:
+        m = nchunks(sp['n'], sp['k']) if sp['kind'] == 'map' else len(sp['items'])
+        se.append(handle_events(sp, perm(rng, m), rng.random() < 0.3))
+    pools = [[(h, e) for e in evs] for h, (evs, _) in enumerate(se)]
+    merged = []
+    while any(pools):
+        h = rng.choice([j for j, q in enumerate(pools) if q])
+        merged.append(pools[h].pop(0))
+    return mk_multi(specs, se, merged, probe=rng.random() < 0.5)
+
+
+def project(c):
+    """a multi case seen from each handle: an ordinary single-handle case (same format)"""
+    res = []
+    for j, h in enumerate(c['handles']):
+        ops = [op[1:] for op in c['ops'] if op[0] == j]
+        if h['kind'] == 'map':
+            res.append(dict(t='map', n=h['n'], k=h['k'], cb=h['cb'], ecb=h['ecb'], ops=ops, kind='clean',
+                            expect=h['expect']))
+        else:
+            res.append(dict(t='imap', unordered=h['unordered'], ops=ops, kind='clean', expect=h['expect']))
+    return res
+
+
 def gen_apply(rng):
     ops = []
     for _ in range(rng.randint(1, 6)):
@@ -309,7 +435,7 @@ def boundary_cases():
     return out
 
 
-GENS = [(gen_chunks, 1), (gen_star, 1), (gen_async, 2), (gen_map, 5), (gen_imap, 4), (gen_flat, 2), (gen_apply, 1)]
+GENS = [(gen_multi, 2), (gen_chunks, 1), (gen_star, 1), (gen_async, 2), (gen_map, 5), (gen_imap, 4), (gen_flat, 2), (gen_apply, 1)]
 
 
 def gen_cases(rng, n):
@@ -506,57 +632,137 @@ def nontrivial(c):
     t = c['t']
     if t == 'star':
         return len(c['c']) >= 2
+    if t == 'multi':
+        return sum(1 for op in c['ops'] if op[1] not in ('get', 'next')) >= 2
     if t in ('chunks', 'async'):
         return len(c['l']) >= 2
     return sum(1 for op in c['ops'] if op[0] != 'get' and op[0] != 'next') >= 2
 
 
+SIG_MULTI = 'C02:handles-not-independent'
+
+
+def units_of(c, o):
+    """(handle index or None, single-handle case, its observation) for every handle of a case"""
+    if c['t'] != 'multi':
+        return [(None, c, o)]
+    if 'crashed' in o:
+        return [(0, c, o)]
+    return [(j, pc, po) for j, (pc, po) in enumerate(zip(project(c), o['handles']))]
+
+
+def judge(units):
+    """render every unit, evaluate the model in Coq, run the monitors.
+    returns list of (unit index, 'alarm'|'internal', signature, text)"""
+    terms, owner, found = [], [], []
+    for u, (j, c, o) in enumerate(units):
+        if 'crashed' in o:
+            found.append((u, 'alarm', 'C02:case-raised', 'the real code raised outside the modelled operations: %s %s'
+                          % (o['crashed'], o.get('where'))))
+            continue
+        try:
+            terms.append(to_coq(c, o))
+            owner.append(u)
+        except Exception as exc:          # an observation of an unexpected shape is a finding, not a crash
+            found.append((u, 'alarm', 'C02:observation-malformed',
+                          'observation cannot be expressed in the model\'s types (%s: %s): %s'
+                          % (type(exc).__name__, exc, json.dumps(o)[:500])))
+            continue
+        try:
+            m = monitor(c, o)
+        except Exception as exc:
+            m = ('C02:observation-malformed', 'monitor could not read the observation (%s: %s)' % (type(exc).__name__, exc))
+        if m:
+            found.append((u, 'alarm', m[0], m[1]))
+    codes, _ = core.coq_eval('C02', HEADER, core.chunks(terms, 300))
+    for i, code in codes:
+        u = owner[i]
+        j, c, o = units[u]
+        if code == 2:
+            found.append((u, 'alarm', SIG_BY_TYPE[c['t']],
+                          'real %s code and the proved model disagree on an observable: case %s impl %s'
+                          % (c['t'], json.dumps(c)[:600], json.dumps(o)[:600])))
+        else:
+            found.append((u, 'internal', SIG_BY_TYPE[c['t']], json.dumps(dict(case=c, impl=o))[:3000]))
+    return found, len(terms)
+
+
 def correspond(res, n):
     rng = random.Random(res.seed * 7919 + 2)
     corpus = json.load(open(core.VERIF + '/corpus/C02.json'))
+    multi = multi_enumerated(random.Random(res.seed * 31 + 5), res.tier)
     bnd = boundary_cases()
-    cases = corpus + bnd + gen_cases(rng, n)
+    cases = corpus + multi + bnd + gen_cases(rng, n)
     outs = core.run_driver('reasm_driver.py', cases)
-    terms = [to_coq(c, o) for c, o in zip(cases, outs)]
-    codes, _ = core.coq_eval('C02', HEADER, core.chunks(terms, 300))
+    units, home = [], []
+    for ci, (c, o) in enumerate(zip(cases, outs)):
+        for un in units_of(c, o):
+            units.append(un)
+            home.append(ci)
+    found, nterms = judge(units)
     canon = {json.dumps(c, sort_keys=True) for c in cases if nontrivial(c)}
     hist = {}
     for c in cases:
         key = c['t'] + ('/' + c['kind'] if 'kind' in c else '')
+        if c['t'] == 'multi':
+            key += '/' + '+'.join(('imapu' if h.get('unordered') else h['kind']) for h in c['handles'])
         hist[key] = hist.get(key, 0) + 1
     sizes = dict(max_input=max(len(c.get('l', c.get('input', []))) for c in cases),
                  max_ops=max(len(c.get('ops', [])) for c in cases))
-    first_rand = len(corpus) + len(bnd)
+    first_rand = len(corpus) + len(multi) + len(bnd)
     res.add_cov(evaluations=len(cases), distinct=len(canon), traces=len(cases),
                 samples=[dict(case=cases[first_rand], impl=outs[first_rand]),
-                         dict(case=cases[-1], impl=outs[-1])],
-                rule='corpus + %d enumerated boundary cases (all arrival orders of <= 4 chunks x failure position, all orders of 3 '
-                     'imap items x set_length position, chunk sizes -1..n+2 for n<9, default chunk size at multiples of 4p) + seeded '
-                     'random histories on the real MapResult/IMapIterator/IMapUnorderedIterator/ApplyResult/_get_tasks/_map_async/'
-                     'imap generator; non-trivial = input length >= 2 (chunks/async) or >= 2 state-changing ops; distinct by canonical '
-                     'JSON' % len(bnd),
-                case_kinds=hist, sizes=sizes)
-    nmon = 0
-    for c, o in zip(cases, outs):
-        m = monitor(c, o)
-        nmon += 1
-        if m:
-            res.alarms.append(dict(signature=m[0], what=m[1], replay=dict(case=c, impl=o)))
-    for i, code in codes:
-        c, o = cases[i], outs[i]
-        if code == 2:
-            res.alarms.append(dict(signature=SIG_BY_TYPE[c['t']],
-                                   what='real %s code and the proved model disagree on an observable: case %s impl %s'
-                                        % (c['t'], json.dumps(c)[:600], json.dumps(o)[:600]),
-                                   replay=dict(case=c, impl=o)))
+                         dict(case=cases[len(corpus)], impl=outs[len(corpus)])],
+                rule='corpus + %d enumerated multi-handle cases (2 handles alive at once over one cache, 2 items each: every '
+                     'arrival order x set_length first/last x EVERY interleaving, ordered/ordered and ordered/unordered; 3 handles '
+                     'incl. a MapResult: every arrival order x %s interleavings; each handle judged against its own independent '
+                     'model copy and its own sequential expectation) + %d enumerated single-handle boundary cases (all arrival orders '
+                     'of <= 4 chunks x failure position, all orders of 3 imap items x set_length position, chunk sizes -1..n+2 for n<9, '
+                     'default chunk size at multiples of 4p) + seeded random histories (single and multi handle) on the real '
+                     'MapResult/IMapIterator/IMapUnorderedIterator/ApplyResult/_get_tasks/_map_async/imap generator; non-trivial = input '
+                     'length >= 2 (chunks/async) or >= 2 state-changing ops; distinct by canonical JSON'
+                     % (len(multi), 'a seeded sample of 150' if res.tier == 'quick' else 'all', len(bnd)),
+                case_kinds=hist, sizes=sizes, model_evaluations=nterms, handles_judged=len(units))
+    res.cov['monitor_evaluations'] = len(units)
+    multi_alarms, single = [], []
+    for u, kind, sig, text in found:
+        ci = home[u]
+        c, o = cases[ci], outs[ci]
+        j = units[u][0]
+        if c['t'] == 'multi':
+            item = dict(signature=SIG_MULTI if kind == 'alarm' else sig,
+                        what='with %d result handles alive at once, handle #%s (%s) does not behave like a handle on its own -- %s'
+                             % (len(c['handles']), j, c['handles'][j or 0]['kind'], text[:900]),
+                        replay=dict(case=c, impl=o))
+            if kind == 'alarm':
+                multi_alarms.append(item)
+            else:
+                res.broken.append(dict(kind='correspondence', name='internal fields of handle #%s in a multi-handle case' % j,
+                                       detail=text))
         else:
-            res.broken.append(dict(kind='correspondence', name='Reassembly model vs code (internal fields) on a %s case' % c['t'],
-                                   detail=json.dumps(dict(case=c, impl=o))[:3000]))
-    res.cov['monitor_evaluations'] = nmon
+            single.append((kind, sig, text, c, o))
+    res.alarms += multi_alarms
+    budget = 0 if multi_alarms else 6
+    for kind, sig, text, c, o in single:
+        if kind == 'alarm' and budget > 0 and sig != SIG_FLAT:
+            budget -= 1
+            alone = core.run_driver('reasm_driver.py', [c])[0]
+            f2, _ = judge([(None, c, alone)])
+            if not any(k == 'alarm' for _, k, _, _ in f2):
+                res.broken.append(dict(kind='correspondence',
+                                       name='a %s case fails inside the batch but not when run alone: result handles of one '
+                                            'process are not independent' % c['t'],
+                                       detail=text[:2000]))
+                continue
+        if kind == 'alarm':
+            res.alarms.append(dict(signature=sig, what=text, replay=dict(case=c, impl=o)))
+        else:
+            res.broken.append(dict(kind='correspondence',
+                                   name='Reassembly model vs code (internal fields) on a %s case' % c['t'], detail=text))
     # documented observation, outside the property (a chunk size is a positive integer): an explicit
     # chunksize <= 0 resolves the MapResult at construction with [None]*n (theorem C02_nonpositive_chunksize_observation)
-    odd = [(c, o) for c, o in zip(cases, outs) if c['t'] == 'async' and c['cs'] is not None and c['cs'] <= 0
-           and c['l'] and not o['raised'] and o['ready']]
+    odd = [(c, o) for c, o in zip(cases, outs) if c['t'] == 'async' and 'crashed' not in o and c['cs'] is not None
+           and c['cs'] <= 0 and c['l'] and not o['raised'] and o['ready']]
     if odd:
         c, o = odd[0]
         res.notes.append('observation (not an alarm): map_async with explicit chunksize=%d over %d items is resolved at '
@@ -600,8 +806,10 @@ def replay(path):
     out = core.run_driver('reasm_driver.py', [c])[0]
     print('case:', json.dumps(c))
     print('implementation now:', json.dumps(out))
-    codes, _ = core.coq_eval('C02r', HEADER, [[to_coq(c, out)]])
-    print('model agrees with the implementation' if not codes else 'model disagrees (code %d)' % codes[0][1])
-    m = monitor(c, out)
-    print('property monitor:', 'ok' if not m else '%s -- %s' % m)
-    return 1 if (codes or m) else 0
+    units = units_of(c, out)
+    found, _ = judge(units)
+    if not found:
+        print('every handle agrees with the model and with the sequential computation')
+    for u, kind, sig, text in found:
+        print('handle #%s: %s %s -- %s' % (units[u][0], kind, sig, text[:1500]))
+    return 1 if found else 0
